@@ -1,6 +1,7 @@
 package props
 
 import (
+	goat "github.com/avos-io/goat"
 	"context"
 	"errors"
 	"fmt"
@@ -148,6 +149,10 @@ func c03(tier string) []*explore.Scenario {
 		}
 	}
 	out = append(out, c03Foreign())
+	out = append(out, c03TwoConnections(1))
+	if tier == "thorough" {
+		out = append(out, explore.Sharded(c03TwoConnections(2), 8)...)
+	}
 	out = append(out, withHistory(historyKinds(tier), c03Early(2, 1, 64, "sendall", 1), c03Early(2, 0, 0, "concurrent", 1), c03LateReader("SStream", 18, true, 64))...)
 	out = append(out, withConfig(configKinds(tier), c03Early(2, 1, 64, "sendall", 1), c03Early(2, 0, 0, "concurrent", 1), c03LateReader("SStream", 18, true, 64))...)
 	// a caller that reads late: bursts of up to 200 messages, then the handler's outcome
@@ -508,6 +513,73 @@ func c03LateReader(kind string, m int, fail bool, capn int) *explore.Scenario {
 				vsched.Fail(fam+"|messages", "the handler sent %d messages before finishing, the late reader received %d (then %s)", m, len(r.CRecv), env.ErrStr(r.CErr))
 			}
 			c03Same(fam, fmt.Sprintf("burst of %d to a late reader", m), herr, r.CErr, true)
+		},
+	}
+}
+
+// c03TwoConnections: one Server object serves two connections; a unary call is in flight on
+// each at the same time (both use id 1), one handler fails with a status carrying details, the
+// other succeeds; then the same with the roles swapped and with streams. Each caller observes
+// the outcome of its own handler on its own connection.
+func c03TwoConnections(bound int) *explore.Scenario {
+	fam := "C03/two-connections"
+	return &explore.Scenario{
+		Name: fmt.Sprintf("C03/two-connections/d=%d", bound), Family: fam, Prop: "C03", Bound: bound,
+		Run: func() {
+			w := env.NewWorld()
+			d := env.NewDirect(w, env.DirectOpts{Pipe: env.PipeOpts{Cap: 16, Serialize: true}})
+			p2 := env.NewPipe(d.Tap, env.PipeOpts{Name: "w2", Cap: 16, Serialize: true})
+			vsched.GoNamed("serve2", func() { d.Srv.Serve(context.Background(), p2.B) })
+			cc2 := goat.NewClientConn(p2.A, "cli2", "srv")
+			vsched.Settle()
+			vsched.Explore(true)
+			st, _ := status.New(codes.FailedPrecondition, "only on this connection").WithDetails(&env.Msg{Value: []byte("detail")})
+			herr := st.Err()
+			for round := 0; round < 2; round++ {
+				running := 0
+				both := make(chan struct{})
+				mk := func(tag string, ret error) *env.Rec {
+					r := w.Rec(tag, "Unary")
+					w.Unaries[tag] = func(r *env.Rec, ctx context.Context, in string) (string, error) {
+						running++
+						if running == 2 {
+							close(both)
+						}
+						<-both // the two calls overlap
+						return "R:" + in, ret
+					}
+					return r
+				}
+				errs := [2]error{herr, nil}
+				if round == 1 {
+					errs = [2]error{nil, herr}
+				}
+				a, b := mk(fmt.Sprintf("a%d", round), errs[0]), mk(fmt.Sprintf("b%d", round), errs[1])
+				vsched.GoNamed("caller-"+a.Tag, func() { w.CallUnary(d.CC, context.Background(), a, "x") })
+				vsched.GoNamed("caller-"+b.Tag, func() { w.CallUnary(cc2, context.Background(), b, "y") })
+				vsched.Quiesce()
+				for i, r := range []*env.Rec{a, b} {
+					vsched.Obs("round %d %s: done=%v err=%s", round, r.Tag, r.CDone, env.ErrStr(r.CErr))
+					if !r.CDone {
+						vsched.Fail(fam+"|caller-hang", "two connections on one Server, a unary call in flight on each: call %s never returned", r.Tag)
+						continue
+					}
+					c03Same(fam, "call "+r.Tag+" on its own connection", errs[i], r.CErr, false)
+				}
+			}
+			// streams: the handler on connection 1 fails after one message, the one on connection 2 completes
+			sa, sb := w.Rec("sa", "Bidi"), w.Rec("sb", "Bidi")
+			w.Handlers["sa"] = env.HReturnAfter(1, herr)
+			w.Handlers["sb"] = env.HEcho
+			vsched.GoNamed("caller-sa", func() { streamCase{"Bidi", "pingpong", "echo", 2, 0, 0}.runCaller(w, d.CC, context.Background(), sa) })
+			vsched.GoNamed("caller-sb", func() { streamCase{"Bidi", "pingpong", "echo", 2, 0, 0}.runCaller(w, cc2, context.Background(), sb) })
+			vsched.Quiesce()
+			if !sa.CDone || !sb.CDone {
+				vsched.Fail(fam+"|caller-hang", "streams on two connections of one Server: %s | %s", sa.Summary(), sb.Summary())
+				return
+			}
+			c03Same(fam, "stream sa on connection 1", herr, sa.CErr, true)
+			c03Same(fam, "stream sb on connection 2", nil, sb.CErr, true)
 		},
 	}
 }
